@@ -16,7 +16,9 @@ CFG = {
                   "sections are atomic, sync.WaitGroup.Wait returns iff the counter is 0, closed channel = flag; tasks of the "
                   "task loop are atomic (C10); Go scheduler fairness is NOT assumed (safety only; delivery of every accepted "
                   "event is shown as: a queued event always has exactly one live drainer). Correspondence is by acceptance of "
-                  "recorded histories (bounded by what the generators schedule), not by translation.",
+                  "recorded histories (bounded by what the generators schedule), not by translation — except Agent.close, which is regenerated "
+                  "in effect mode on every run: the loop is closed first, then the three notifiers, each a different one, each once "
+                  "(C11_code_close_notifiers).",
     "components": [
         {"component": "notifier", "trivial_regex": r"^(bad-op.*)$", "timeout_quick": 120, "timeout_thorough": 900},
         {"component": "gathercycle", "trivial_regex": r"^(bad-op.*)$", "timeout_quick": 120, "timeout_thorough": 900},
@@ -39,7 +41,7 @@ CFG = {
             "reply script with Restart and Close, + 4 filtered / cancelled variants - one line per operation, compared with IceModel.Gather and "
             "judged by IceSpec.C11Gather.nilViolation (one nil, after all candidates of its cycle, none while a request of the cycle is in flight). "
             "Distinct = distinct (history, output) lines; every line is non-trivial (a history with at least one event).",
-    "translated": [],
+    "translated": ["Agent.close"],
     "trusted_base": ["sync.Mutex / sync.WaitGroup / channel-close semantics as modelled (atomic critical sections)",
                      "testing/synctest of go1.26.8 (virtual clock, bubble leak detection); recorder stamps from one atomic counter",
                      "gatherforce: Go's select picks uniformly among ready cases; synctest.Wait returns only when the agent loop is parked in its "
